@@ -21,6 +21,8 @@
                                 raw 0=None 1=memmap 2=mtscomp 3=closed
    kind 4 (meta-less flat binary, nothing given)
                         input : [4; size]          output: [nc; ns; nsync]  ([0;0;0] = AssertionError)
+   kind 5 (meta-less reader, nc/ns/fs given)
+                        input : [5; n; nc; ns; f]  f 1=.bin 2=.cbin     output: [1; exposed ns] or [0; 0] (ValueError)
    state quadruple: [0;0;0;0] absent, [1;j;0;0] partial with j chunks,
                     [2;t;r;c] complete with tag t (1 Orig 2 Comp 3 Hdr 4 MetaOf). *)
 From Coq Require Import ZArith List Bool.
@@ -139,6 +141,9 @@ Definition run (inp : list Z) : list Z :=
       run_fs opk r c m B keep chk ow sd fault st
   | 2 :: nc :: ns :: size :: data => run_codec nc ns size data
   | 3 :: n :: nc :: zc :: nch :: ns0 :: f0 :: iw :: ops => run_obj n nc zc nch ns0 f0 iw ops
+  | [5; n; nc; ns; f] =>
+      match r_open_nometa (mkW n nc 0 n false) (if f =? 1 then DBin else DCbin) ns with
+      | Some k => [1; k] | None => [0; 0] end
   | [4; size] => match flat_guess size with Some (nc, ns, nsy) => [nc; ns; nsy] | None => [0; 0; 0] end
   | _ => [-999]
   end.
